@@ -256,6 +256,11 @@ class ndpoly(numpy.ndarray):  # pylint: disable=invalid-name
             raise FeatureNotSupported(f"Method '{method}' not supported.")
         if ufunc not in numpoly.UFUNC_COLLECTION:
             raise FeatureNotSupported(f"ufunc '{ufunc}' not supported.")
+        # numpy hands a single output target over as a 1-tuple (`out=(x,)`, also
+        # for the in-place operators); the numpoly functions take the array itself.
+        out = kwargs.get("out")
+        if isinstance(out, tuple) and len(out) == 1:
+            kwargs["out"] = out[0]
         return numpoly.UFUNC_COLLECTION[ufunc](*inputs, **kwargs)
 
     def __array_function__(
